@@ -4,6 +4,7 @@ package main
 //
 // One cell = one line:
 //   kind=uri preload=1 limit=2 passes=0 n=3 cons=1 cap=8 junk=0 [mode=drain|stall|ext|engine] [via=direct|cfg] [at=K] [shots=S] [pad=P] [eol=E] [idle=1] [gate=G]
+// fault plan (any combination, modes drain / ext / tcan): [cfail=1|2] [rfail=K [rsticky=1]] [ofail=1]; the observation then ends with rhit= chit= ohit=
 // kinds: uri uris uripost raw jsonl jsonarr (components/providers/http, with and without preload), grpcjson,
 // httpscn, grpcscn (scenario providers), genjson (core/provider JSON provider over MultiPassReader).
 // See harness/c08cell for what each mode does.  Observation per mode:
@@ -72,6 +73,8 @@ type cell struct {
 	jit              int
 	eol, gate        int
 	idle             bool
+	cfail, rfail     int  // fault plan: close fails (1) / Close field nil (2); the rfail-th file operation fails
+	rsticky, ofail   bool // … and every later one; opening the ammo file fails
 }
 
 func b2i(x bool) int {
@@ -110,6 +113,18 @@ func (c cell) line() string {
 	}
 	if c.gate != 0 {
 		s += fmt.Sprintf(" gate=%d", c.gate)
+	}
+	if c.cfail != 0 {
+		s += fmt.Sprintf(" cfail=%d", c.cfail)
+	}
+	if c.rfail != 0 {
+		s += fmt.Sprintf(" rfail=%d", c.rfail)
+		if c.rsticky {
+			s += " rsticky=1"
+		}
+	}
+	if c.ofail {
+		s += " ofail=1"
 	}
 	return s
 }
@@ -290,6 +305,77 @@ func gen(r *rand.Rand, tier string) []string {
 		}
 	}
 
+	// H. fault plans (round 3): a Close that fails / is absent, the k-th file operation fails (once, or from then on),
+	// the open fails — alone and together with each other, with a cancel after `cap` acquisitions, with a cancel from
+	// inside a file operation (ext) and with the bound being reached: every kind, preload on and off
+	fb := []bnd{{0, 0, 2}, {3, 0, 2}, {0, 2, 2}, {5, 2, 3}}
+	maxK := 10
+	if thorough {
+		fb = append(fb, bnd{0, 0, 1}, bnd{1, 0, 1}, bnd{0, 1, 1}, bnd{7, 0, 3}, bnd{0, 3, 4}, bnd{9, 2, 5})
+		maxK = 40
+	}
+	for _, v := range vs {
+		for bi, b := range fb {
+			m, bounded := expected(b.limit, b.passes, b.n)
+			full := capFor(b.limit, b.passes, b.n)
+			// H1. close faults x (nobody cancels | cancel after 1, 2, M-1, M acquisitions)
+			cuts := []int{full, 1, 2}
+			if bounded && m > 2 {
+				cuts = append(cuts, m-1, m)
+			}
+			for ci, cp := range cuts {
+				for _, cons := range []int{1, 2} {
+					c := cell{v: v, limit: b.limit, passes: b.passes, n: b.n, cons: cons, cap: cp, cfail: 1, eol: (bi + ci) % 4, junk: (bi+ci+cons)%2 == 1}
+					if (bi+ci+cons)%3 == 0 {
+						c.via = "cfg"
+					}
+					add(c)
+					if c08cell.IsHTTP(v.kind) && cons == 1 {
+						c.cfail, c.via = 2, ""
+						add(c)
+					}
+				}
+			}
+			// H2. a close fault and a cancel from inside the at-th file operation
+			for at := 0; at <= 6; at++ {
+				add(cell{v: v, limit: b.limit, passes: b.passes, n: b.n, cons: 1 + (at+bi)%2, cap: full, mode: "ext", at: at, cfail: 1 + (at/4)%2*b2i(c08cell.IsHTTP(v.kind)), junk: at%2 == 0})
+			}
+			// H3. the k-th file operation fails; every second cell also has a failing close, every third a cancel after 2 acquisitions
+			for k := 1; k <= maxK; k++ {
+				for _, sticky := range []bool{false, true} {
+					c := cell{v: v, limit: b.limit, passes: b.passes, n: b.n, cons: 1 + (k+bi)%2, cap: full, rfail: k, rsticky: sticky, eol: (k + bi) % 4, junk: k%2 == 0}
+					if (k+bi+b2i(sticky))%2 == 0 {
+						c.cfail = 1
+					}
+					if (k+bi)%3 == 0 {
+						c.cap = 2
+					}
+					if thorough && k%5 == 0 {
+						c.pad = 1500
+					}
+					add(c)
+				}
+			}
+			// H4. the open fails (grpc/json and the generic JSON provider open the file in Run)
+			add(cell{v: v, limit: b.limit, passes: b.passes, n: b.n, cons: 2, cap: full, ofail: true, cfail: bi % 2})
+		}
+	}
+	// H5. an I/O error and a cancel from inside a file operation / from a timer, at independent points
+	nPairs := 12
+	if thorough {
+		nPairs = 150
+	}
+	for _, v := range vs {
+		for i := 0; i < nPairs; i++ {
+			b := fb[r.Intn(len(fb))]
+			c := cell{v: v, limit: b.limit, passes: b.passes, n: b.n, cons: 1 + r.Intn(3), cap: capFor(b.limit, b.passes, b.n), mode: "ext", at: r.Intn(12), rfail: 1 + r.Intn(12), rsticky: r.Intn(2) == 0, cfail: r.Intn(2), eol: r.Intn(4), junk: r.Intn(2) == 0}
+			if i%4 == 3 {
+				c.mode, c.at, c.jit = "tcan", r.Intn(400), r.Intn(4)
+			}
+			add(c)
+		}
+	}
+
 	// G. random larger cells, all modes
 	extra := 400
 	maxN, maxL, maxP = 12, 30, 6
@@ -359,6 +445,22 @@ func gen(r *rand.Rand, tier string) []string {
 				c.cap = 1 + r.Intn(m+1)
 			}
 		}
+		if (c.mode == "" || c.mode == "ext" || c.mode == "tcan") && r.Intn(4) == 0 { // a fault plan on top
+			switch r.Intn(4) {
+			case 0:
+				c.cfail = 1
+			case 1:
+				c.rfail, c.rsticky = 1+r.Intn(3*n+12), r.Intn(2) == 0
+			case 2:
+				c.cfail, c.rfail, c.rsticky = 1, 1+r.Intn(3*n+12), r.Intn(2) == 0
+			default:
+				if c08cell.IsHTTP(v.kind) && c.via != "cfg" {
+					c.cfail = 2
+				} else {
+					c.ofail = true
+				}
+			}
+		}
 		add(c)
 	}
 	return out
@@ -389,19 +491,27 @@ func run(input string) string {
 		Eol:     atoi(kv["eol"]),
 		Idle:    kv["idle"] == "1",
 		Gate:    atoi(kv["gate"]),
+		CFail:   atoi(kv["cfail"]),
+		RFail:   atoi(kv["rfail"]),
+		RSticky: kv["rsticky"] == "1",
+		OFail:   kv["ofail"] == "1",
 	}
 	if c.Mode == "" {
 		c.Mode = "drain"
 	}
 	o := c08cell.Run(c)
+	hits := ""
+	if c.HasFault() {
+		hits = fmt.Sprintf(" rhit=%d chit=%d ohit=%d", b2i(o.RHit), b2i(o.CHit), b2i(o.OHit))
+	}
 	if o.Construct != "" {
-		return "construct=" + o.Construct
+		return "construct=" + o.Construct + hits
 	}
 	switch c.Mode {
 	case "stall":
 		return fmt.Sprintf("delivered=%d cut=%d ret=%d run=%s left=%d end=%s seq=%s", o.Delivered, b2i(o.Cut), b2i(o.Ret), o.Run, o.Left, o.End, o.Seq)
 	case "ext", "tcan":
-		return fmt.Sprintf("delivered=%d cut=%d fired=%d run=%s end=%s seq=%s ops=%d", o.Delivered, b2i(o.Cut), b2i(o.Fired), o.Run, o.End, o.Seq, o.Ops)
+		return fmt.Sprintf("delivered=%d cut=%d fired=%d run=%s end=%s seq=%s ops=%d", o.Delivered, b2i(o.Cut), b2i(o.Fired), o.Run, o.End, o.Seq, o.Ops) + hits
 	case "engine":
 		g := ""
 		if c.Gate != 0 {
@@ -409,7 +519,7 @@ func run(input string) string {
 		}
 		return fmt.Sprintf("shots=%d err=%s wait=%d seq=%s%s", o.Shots, o.EngErr, b2i(o.Wait), o.Seq, g)
 	}
-	return fmt.Sprintf("delivered=%d cut=%d run=%s end=%s seq=%s ops=%d", o.Delivered, b2i(o.Cut), o.Run, o.End, o.Seq, o.Ops)
+	return fmt.Sprintf("delivered=%d cut=%d run=%s end=%s seq=%s ops=%d", o.Delivered, b2i(o.Cut), o.Run, o.End, o.Seq, o.Ops) + hits
 }
 
 func class(input, obs string) string {
@@ -438,6 +548,30 @@ func class(input, obs string) string {
 			mode = "drain-cut"
 		}
 	}
+	// fault plan: which faults reached the provider, and together with what
+	if kv["cfail"] != "" || kv["rfail"] != "" || kv["ofail"] != "" {
+		f := "fault"
+		if kv["cfail"] == "2" {
+			f += "-noclose"
+		}
+		okv := drv.KV(obs)
+		if okv["rhit"] == "1" {
+			f += "-io"
+		}
+		if okv["chit"] == "1" {
+			f += "-close"
+		}
+		if okv["ohit"] == "1" {
+			f += "-open"
+		}
+		if okv["cut"] == "1" || okv["fired"] == "1" {
+			f += "+cancel"
+		}
+		if strings.HasPrefix(obs, "construct=") {
+			f += "@constructor"
+		}
+		mode += "/" + f
+	}
 	return mode + ":" + kv["kind"] + pre + "/" + b
 }
 
@@ -453,6 +587,7 @@ func main() {
 			"exhaustive matrix kinds{uri,uris,uripost,raw,jsonl,jsonarr}x preload + {grpcjson,httpscn,grpcscn,genjson} x limit 0..4 x passes 0..3 x n 1..4 x consumers{1,3} with consumers always ready " +
 			"(unbounded cells cancelled after cap acquisitions); cancellation after every number of deliveries 1..M+1 of bounded cells; consumers that stop after cap acquisitions followed by a cancel (stall); " +
 			"cancellation from inside the k-th file operation (ext) and from a timer (tcan); a slice through the real core/engine with 1 or 3 instances and a recording gun, " +
+			"fault plans (a failing / absent Close, an I/O error in the k-th file operation once or from then on, a failing open) alone, combined, and together with a cancel after cap acquisitions / from inside a file operation / at the bound; " +
 			"also with a schedule without any token (idle: the engine cancels the provider inside its gate-th file operation, e.g. in the middle of LoadAmmo); four shapes of line ends (eol: LF, no final newline, CRLF, surrounding blank lines); random larger cells in all modes. " +
 			"Every cell is non-trivial (class = mode:kind/preload/bound shape)",
 	})
